@@ -80,7 +80,11 @@ RULE = ("(a) all concatenations of <=k tokens from {<% %> </% ${ } % %% ## \\ LF
         "CRLF, NBSP, U+2028, astral) with well-formed directives (expression, control lines, ## comment, %% escape, "
         "backslash-newline, <%doc>, <%text>, <% %>, <%! %>, def+call) at line start / mid-line / after a "
         "continuation / at EOF / after CRLF, each with its ground-truth output; (c) token-level mutations of such "
-        "documents and random token soup; construction paths: every canonical document x {utf-8, latin-1, cp1251, "
+        "documents and random token soup; preprocessors: 10 configurations (identity, lengthening: banner / tail / "
+        "tab expansion / #if rewriting, shortening, lists of several) - Lexer(src, preprocessor=p), Template(src, "
+        "preprocessor=p) and a file-based TemplateLookup(preprocessor=p) with and without module_directory must equal "
+        "lexing / rendering p(src): every canonical document x every configuration x every route, every generated "
+        "document with one configuration, every enumeration string (k<=4) at the Lexer level; construction paths: every canonical document x {utf-8, latin-1, cp1251, "
         "koi8-r} x {string+coding line, bytes, file, file+module_directory, reused module file}, every generated "
         "document and every inert non-ASCII enumeration string along all five paths in one encoding (characters the "
         "codec lacks are substituted in source and documented output alike); timing test: 27 hand-written + 234 grid families (unterminated opener x "
@@ -405,6 +409,105 @@ def paths_oracle(oracle, src, want, tmp, enc):
     return bad
 
 
+# ---- preprocessors: Template(src, preprocessor=p) must be Template(p(src))
+def pp_identity(t):
+    return t
+
+
+def pp_banner(t):
+    return "banner \u00e9\n" + t
+
+
+def pp_tail(t):
+    return t + "\ntail \u00e9 text"
+
+
+def pp_tabs(t):
+    return t.replace("\t", "        ").replace(" ", "  ")
+
+
+def pp_hash_if(t):
+    return re.sub(r"(?m)^#(if|endif)\b", r"% \1", t) + "\n#if True:\nyes\n#endif\n" if False else \
+        re.sub(r"(?m)^#(if|endif)\b", r"% \1", t + "\n#if True:\nyes\n#endif\n")
+
+
+def pp_shorten(t):
+    return t.replace("b", "").replace("  ", " ")
+
+
+def pp_halve(t):
+    return t[: (len(t) + 1) // 2]
+
+
+PREPROCESSORS = [
+    ("identity", [pp_identity]), ("banner", [pp_banner]), ("tail", [pp_tail]), ("tabs", [pp_tabs]),
+    ("hash-if", [pp_hash_if]), ("shorten", [pp_shorten]), ("halve", [pp_halve]),
+    ("banner+tail", [pp_banner, pp_tail]), ("shorten+tail", [pp_shorten, pp_tail]), ("tail+halve+tail", [pp_tail, pp_halve, pp_tail]),
+]
+
+
+def apply_pps(ps, t):
+    for p_ in ps:
+        t = p_(t)
+    return t
+
+
+def _outcome(fn):
+    """value or a description of the Mako exception raised (class, line, column, message)"""
+    from mako import exceptions
+    try:
+        return ("ok", fn())
+    except exceptions.MakoException as e:
+        return ("raised", type(e).__name__, getattr(e, "lineno", None), getattr(e, "pos", None),
+                re.sub(r" in file '[^']*'", "", str(e))[:160])
+    except Exception as e:
+        return ("raised-raw", type(e).__name__)      # (the message names the module / a memory address)
+
+
+def preprocessor_oracle(src, name, ps, tmp=None, lexer_only=False):
+    """`Lexer(src, preprocessor=ps).parse()` / `Template(src, preprocessor=ps)` / a file-based
+    `TemplateLookup(preprocessor=ps)` against lexing / rendering `p(src)` directly.  -> [(site, detail, route)]"""
+    from mako.lexer import Lexer
+    from mako.template import Template
+    from mako.lookup import TemplateLookup
+    bad = []
+    want_src = apply_pps(ps, src)
+    a = _outcome(lambda: repr(Lexer(src, preprocessor=list(ps)).parse()))
+    b_ = _outcome(lambda: repr(Lexer(want_src).parse()))
+    if a != b_:
+        bad.append(("preprocessed-text-lexed-differently", "Lexer(src, preprocessor=%s): %s ; Lexer(p(src)): %s" % (
+            name, str(a)[:160], str(b_)[:160]), "lexer"))
+    if lexer_only:
+        return bad
+    ref = _outcome(lambda: Template(want_src).render_unicode(x="X"))
+    got = _outcome(lambda: Template(src, preprocessor=list(ps) if len(ps) > 1 else ps[0]).render_unicode(x="X"))
+    if got != ref:
+        bad.append(("preprocessed-text-rendered-differently", "Template(src, preprocessor=%s): %s ; Template(p(src)): %s" % (
+            name, str(got)[:160], str(ref)[:160]), "template"))
+    if tmp is not None:
+        _serial[0] += 1
+        d = os.path.join(tmp, "pp%d_%d" % (os.getpid(), _serial[0]))
+        os.makedirs(d)
+        with open(os.path.join(d, "t.txt"), "wb") as f:
+            f.write(src.encode("utf-8"))
+        if src.startswith("\ufeff"):
+            # a file that starts with U+FEFF starts with the UTF-8 byte order mark, which reading a file strips
+            ref = _outcome(lambda: Template(apply_pps(ps, src[1:])).render_unicode(x="X"))
+        for route, kw in (("lookup", {}), ("lookup+module_directory", {"module_directory": os.path.join(d, "mods")})):
+            def viaLookup():
+                lk = TemplateLookup(directories=[d], preprocessor=list(ps), **kw)
+                t_ = lk.get_template("t.txt")
+                try:
+                    return t_.render_unicode(x="X")
+                finally:
+                    sys.modules.pop(t_.module.__name__, None)
+            got = _outcome(viaLookup)
+            if got != ref:
+                bad.append(("preprocessed-text-rendered-differently", "TemplateLookup(preprocessor=%s) [%s]: %s ; "
+                            "Template(p(src)): %s" % (name, route, str(got)[:160], str(ref)[:160]), route))
+    return bad
+
+
 def render_oracle_inert(s, want=None, renderer=None):
     """(B) for inert strings: output == input.  returns None or (site, detail)"""
     from mako import exceptions
@@ -516,6 +619,15 @@ def check_batch(strs, opts):
                 b("oracle:" + site)
                 if len(res["violations"]) < 20:
                     res["violations"].append((site, s, detail, "oracle.tiling"))
+        if opts.get("render"):
+            name, ps = PREPROCESSORS[1 + (len(s) + sum(map(ord, s))) % (len(PREPROCESSORS) - 1)]
+            res["render_cases"] += 1
+            r_, to = timed(preprocessor_oracle, s, name, ps, None, True)
+            for site, detail, route in (r_ or []):
+                b("oracle:" + site)
+                if len(res["violations"]) < 20:
+                    res["violations"].append((site, {"input": s, "preprocessor": name, "route": route}, detail,
+                                              "oracle.preprocessor"))
         if opts.get("paths") and inert(s) and not s.isascii():
             enc = ENCODINGS[(len(s) + sum(map(ord, s))) % len(ENCODINGS)]
             res["render_cases"] += len(PATHS)
@@ -1124,6 +1236,20 @@ def canonical_paths_oracle():
     return bad
 
 
+def canonical_preprocessor_oracle():
+    """every canonical document with every preprocessor configuration along every route -> [(site, case, detail)]"""
+    bad = []
+
+    def run(tmp):
+        for src, want in CANONICAL:
+            for name, ps in PREPROCESSORS:
+                r_, to = timed(preprocessor_oracle, src, name, ps, tmp)
+                for site, detail, route in (r_ or []):
+                    bad.append((site, {"input": src, "preprocessor": name, "route": route}, detail))
+    with_tmp(run)
+    return bad
+
+
 def task_documents(args):
     seed, n, empty_text = args
     import random
@@ -1148,6 +1274,41 @@ def task_documents(args):
                     res["violations"].append((site, {"input": src2, "path": path, "encoding": enc}, detail,
                                               "oracle.render-paths"))
     with_tmp(paths)
+
+    def pps(tmp):
+        for i, d in enumerate(docs):
+            name, ps = PREPROCESSORS[i % len(PREPROCESSORS)]
+            res["render_cases"] += 4
+            res["branches"]["preprocessor:document:" + name] = res["branches"].get("preprocessor:document:" + name, 0) + 1
+            r_, to = timed(preprocessor_oracle, d.s(), name, ps, tmp)
+            for site, detail, route in (r_ or []):
+                res["branches"]["oracle:" + site] = res["branches"].get("oracle:" + site, 0) + 1
+                if len(res["violations"]) < 20:
+                    res["violations"].append((site, {"input": d.s(), "preprocessor": name, "route": route}, detail,
+                                              "oracle.preprocessor"))
+    with_tmp(pps)
+    # correspondence: the model lexes the preprocessed text; the implementation is given the preprocessors
+    cases = [(d.s(),) + PREPROCESSORS[(i + 3) % len(PREPROCESSORS)] for i, d in enumerate(docs)]
+    try:
+        outs = Driver().ask_many([LM.req_full(apply_pps(ps, s)) for s, _, ps in cases])
+    except Exception as e:
+        outs = []
+        res["driver_failed"] = repr(e)[:300]
+    adjust = _adjust()
+    for (s, name, ps), o in zip(cases, outs):
+        res["cases"] += 1
+        impl, to = timed(LM.impl_lex, s, list(ps))
+        if to:
+            continue
+        try:
+            dd = LM.compare_full(impl, LM.parse_full(o), adjust)
+        except Exception as e:
+            dd = "cannot parse the model's answer: %r" % (e,)
+        if dd:
+            res["n_disagreements"] = res.get("n_disagreements", 0) + 1
+            if len(res["disagreements"]) < 5:
+                res["disagreements"].append({"case": {"input": s, "preprocessor": name}, "why": dd, "model": (o or "")[:400],
+                                             "impl": {k: v for k, v in impl.items() if k not in ("nodes", "tree")}})
     for d in docs:
         res["render_cases"] += 1
         src = d.s()
@@ -1581,6 +1742,11 @@ def run(ctx):
             for site, src, detail in canonical_oracle():
                 VIOL.insert(0, (site, src, detail, "oracle.render-canonical"))
             st_c["cases"] += len(CANONICAL)
+            cpp = canonical_preprocessor_oracle()
+            for site, case, detail in reversed(cpp[:12]):
+                VIOL.insert(0, (site, case, detail, "oracle.preprocessor"))
+            st_c["cases"] += len(CANONICAL) * len(PREPROCESSORS) * 4
+            ctx.branch("preprocessor:canonical", len(CANONICAL) * len(PREPROCESSORS) * 4)
             cp = canonical_paths_oracle()
             for site, case, detail in reversed(cp[:12]):
                 VIOL.insert(0, (site, case, detail, "oracle.render-paths"))
@@ -1646,6 +1812,13 @@ def replay(ctx, data):
     s = case["input"] if isinstance(case, dict) else case
     if not isinstance(s, str):
         return False
+    if isinstance(case, dict) and "preprocessor" in case:
+        ps = dict(PREPROCESSORS)[case["preprocessor"]]
+        bad = with_tmp(lambda tmp: preprocessor_oracle(s, case["preprocessor"], ps, tmp))
+        print("p(src) =", repr(apply_pps(ps, s))[:300])
+        for site, detail, route in bad:
+            print("oracle:", site, "|", detail[:400])
+        return not bad
     if isinstance(case, dict) and "path" in case:
         # a construction-path case: the path's output against the output of the plain string Template
         def run(tmp):
